@@ -6,7 +6,7 @@
    proves, for EVERY list of files and every failure assignment, that the abstraction of Scan/SkelAbs.v is a
    simulation from this semantics of the extracted program onto Pool.step, that no configuration panics, that
    only finished configurations are stuck, and transfers PoolFacts' delivery / merge-order theorems to the
-   configurations of the program (Properties/C07.v, C07_program_*).  The harness still explores, for small
+   configurations of the program (Properties/C07.v, the C07_program theorems).  The harness still explores, for small
    numbers of files and every set of unreadable files, ALL configurations reachable under the EXTRACTED
    (OCaml) semantics and re-checks the same facts plus coverage (every Pool transition is the image of some
    step): a cross-check of extraction and of the one direction the theorems do not state (lib/props/merge.py,
